@@ -19,7 +19,7 @@ THEOREMS = ["Claripy.Props.C08.C08_replace_leaf", "Claripy.Props.C08.C08_rename"
             "Claripy.Props.C08.C08_ite_cases", "Claripy.Props.C08.C08_ite_dict", "Claripy.Props.C08.C08_ite_dict_median",
             "Claripy.Props.C08.C08_excavate_step", "Claripy.Props.C08.C08_excavate_sound", "Claripy.Props.C08.C08_excavate_model_sound", "Claripy.Props.C08.C08_excavate_rules_sound",
             "Claripy.Props.C08.C08_burrow_sound", "Claripy.Props.C08.C08_burrow_unguarded_ill_typed", "Claripy.AST.applyOp_ty_congr",
-            "Claripy.AST.applyOp_strict", "Claripy.AST.eval_bool_width", "Claripy.Props.C08.C08_identical_vsa_route_unsound", "Claripy.Props.C08.C08_canonicalize_injective", "Claripy.AST.canonRho_injective",
+            "Claripy.AST.applyOp_strict", "Claripy.AST.eval_bool_width", "Claripy.Props.C08.C08_identical_vsa_route_unsound", "Claripy.Props.C08.C08_canonicalize_injective", "Claripy.Props.C08.C08_canonicalize_injective_full", "Claripy.AST.leafAsts_complete", "Claripy.AST.canonRho_injective",
             "Claripy.Props.C08.evalCases_filter", "Claripy.Props.C08.medianKey_lt"]
 
 
